@@ -7,6 +7,7 @@ mod c03;
 mod c04;
 mod c05;
 mod c07;
+mod c11;
 mod c12;
 mod c16;
 mod corpus;
@@ -34,6 +35,11 @@ fn main() {
         "C04" => c04::run(&cli, &rep),
         "C05" => c05::run(&cli, &rep),
         "C07" => c07::run(&cli, &rep),
+        "C11" => c11::run(&cli, &rep),
+        "debug-bcj2" => {
+            c11::debug_bcj2();
+            return;
+        }
         "C12" => c12::run(&cli, &rep),
         "C16" => c16::run(&cli, &rep),
         other => {
